@@ -112,6 +112,36 @@ PROPS = {
     design_ref='DESIGN.md 4/C19',
     exhaustive={'quick': False, 'thorough': True},
  ),
+ 'C05': dict(
+    level=EX, engines=[('rel', 'eng_c05')],
+    technique='bounded exhaustive enumeration of all operand pairs x 14 binary operations x all (a,b,c) reduction-rule triples (same-object and all-distinct forest assignments) on the real library, compared with exact scalar tables; every pair with an invalid scalar case must raise the documented error; unary maps and range queries over whole universes',
+    rule='every ordered pair of functions of the universe |V|^points (or U x B and B x U beyond the cap) x {PLUS, MINUS, MULTIPLY, DIVIDE, MODULO, MAXIMUM, MINIMUM, DIST_MIN, EQUAL, NOT_EQUAL, LESS_THAN, LESS_THAN_EQUAL, GREATER_THAN, GREATER_THAN_EQUAL} x rule triples x comparison result in boolean and operand-typed forests; error part: pairs whose divisor has a zero / whose subtrahend has +infinity must raise DIVIDE_BY_ZERO / SUBTRACT_INFINITY; unary: DIST_INC, three user-defined maps, MAX_RANGE/MIN_RANGE over every function x rule pairs. non-trivial = non-constant result; distinct by (op, forests, a, b)',
+    bounds={'quick': 'MT int, MT real, EV+ sets S1-S2 all pairs (16, 64 functions), S3 via U x B0 and B0 x U, S4 via B0 x B0; MT int/real, EV+, EV* relations S1 via B0 x B0',
+            'thorough': 'sets S3 all pairs (256 functions), S4 via B0, S6 via B0 x B0; relations S1 all pairs (256 functions), S2 via B0 x B0; second value alphabets'},
+    text='Exhaustive over the stated operand universes, operations and rule triples; exact scalar oracle; documented errors required for invalid scalar cases.',
+    note='bounded: 1-3 variables of size 2-3, 4-value alphabets; EV+ multiply/divide with +infinity operands are outside the documented domain and skipped (counted); known findings KF-C05-1..5',
+    design_ref='DESIGN.md 4/C05',
+ ),
+ 'C08': dict(
+    level=EX, engines=[('rel', 'eng_rel')],
+    technique='bounded exhaustive enumeration of all (initial set, transition relation) pairs over tiny domains x 6 algorithm/direction pairs x relation and set reduction rules on the real library, inside one warm instance with alternating relations, compared with an explicit BFS closure / shortest-path model',
+    rule='every transition relation of the universe 2^(points^2) (or the structured family B) x every initial set (all subsets, or a fixed covering menu for larger products) x {TRAD_FS, TRAD_NOFS, SATUR} x {forward, backward} x relation rule {F,Q,I} x set rule {F,Q}; result must be the identical canonical edge of the reachable set; every third case also runs saturation in a second set forest sharing the relation forest; distance variants (EV+ 0/+inf and MT int 0/-1) against BFS distances and equal across algorithms. non-trivial = reachable set differs from the initial set',
+    bounds={'quick': 'boolean: S1 (16 relations), S2 (512) complete x all initial sets; S3 (65536) and S4 via the structured family; distances: S1, S2 complete, S3 via B0',
+            'thorough': 'S3 complete (65536 relations x 16 initial sets), S4 via B, S6 via B0'},
+    text='Exhaustive over the stated relation universes and initial sets; all algorithms must return the identical canonical edge of the explicit closure.',
+    note='bounded: 1-3 variables of size 2-3; MT int saturation known finding KF-C08-1; TRAD_FS is not offered for distance forests (listed as declined)',
+    design_ref='DESIGN.md 4/C08',
+ ),
+ 'C09': dict(
+    level=EX, engines=[('rel', 'eng_rel')],
+    technique='bounded exhaustive enumeration of all (set or vector, relation or matrix) pairs over tiny domains x rules on the real library, compared with the relational / linear-algebra definition',
+    rule='PRE_IMAGE and POST_IMAGE over every (set function, relation) pair for boolean sets, EV+ distance sets (values 0,1,3,+inf: 1 + min over neighbours, +inf where none) and MT int distance sets (negative = unreachable); VM_MULTIPLY and MV_MULTIPLY over every (vector, matrix) pair for MT int and MT real; relation rule {F,Q,I} x set rule {F,Q}. non-trivial = non-constant result',
+    bounds={'quick': 'images: S1, S2 complete, S3/S4/S5 via the structured family; products: S1 complete (16 vectors x 256 matrices), S2 via B0',
+            'thorough': 'images S3 complete, S4 via B; products S3 via B0'},
+    text='Exhaustive over the stated operand universes; exact relational oracle.',
+    note='bounded: 1-2 variables of size 2-3 (non-uniform shapes S4, S5 included); real sums on dyadic values',
+    design_ref='DESIGN.md 4/C09',
+ ),
 }
 
 NOT_YET = {}
